@@ -18,7 +18,7 @@ LIMITS = {"LimNone": -1, "Lim128": 128, "Lim0": 0, "Lim200": 200}
 
 class Scn:
     def __init__(self, name, topo="T1", stages="One1", stack="One0", catch="OneF", tx="TxLin", lat="Lat1", pol="PolDrop",
-                 lim="LimNone", menu="MenuChan", start="StartChan", max_inv=6, max_t=12, fix_drain=True, jitter_ns=0):
+                 lim="LimNone", menu="MenuChan", start="StartChan", max_inv=6, max_t=12, fix_drain=True, jitter_ns=0, endfail="NoEndFail"):
         self.__dict__.update(locals())
 
     def mods(self):
@@ -27,7 +27,7 @@ class Scn:
     def constants(self):
         t = self.topo
         chans = "{1}" if t == "T1" else "{1, 2}"
-        return (f"Mods <- {'ModsAB' if t == 'T1' else 'ModsABC'} Stages <- {self.stages} Stack <- {self.stack} Catch <- {self.catch} "
+        return (f"Mods <- {'ModsAB' if t == 'T1' else 'ModsABC'} Stages <- {self.stages} Stack <- {self.stack} Catch <- {self.catch} EndFail <- {self.endfail} "
                 f"Route <- Route{t} GateOwner <- Owner{t}\n Chans = {chans} TxOf <- {self.tx} LatOf <- {self.lat} PolicyOf <- {self.pol} "
                 f"LimitOf <- {self.lim} BytesOf <- {TX[self.tx]['BytesOf']}\n Menu <- {self.menu} StartMenu <- {self.start} "
                 f"MaxInv = {self.max_inv} MaxT = {self.max_t} FixDrain = {'TRUE' if self.fix_drain else 'FALSE'}")
@@ -40,13 +40,13 @@ class Scn:
                 return {m: table[name] for m in "abc"}
             return special[name]
         stages = per_mod(self.stages, {"Stages212": {"a": 2, "b": 1, "c": 2}})
-        stack = per_mod(self.stack, {"Stack2": {"a": 2, "b": 2, "c": 2}, "Stack012": {"a": 1, "b": 2, "c": 0}})
+        stack = per_mod(self.stack, {"Stack2": {"a": 2, "b": 2, "c": 2}, "Stack012": {"a": 1, "b": 2, "c": 0}, "Stack3": {"a": 3, "b": 3, "c": 3}})
         catch = {"OneF": {m: False for m in "abc"}, "OneT": {m: True for m in "abc"}, "CatchB": {"a": False, "b": True, "c": False}}[self.catch]
         ch = {"bitrate": tx["bitrate"], "lat": 1 if self.lat == "Lat1" else 0, "policy": "drop" if self.pol == "PolDrop" else "queue",
               "limit": LIMITS[self.lim], "jitter_ns": self.jitter_ns}
         return {"mods": self.mods(), "topo": self.topo, "stages": stages, "stack": stack, "catch": catch,
                 "chans": {"1": ch, "2": ch}, "tick_ns": tx["tick_ns"], "bytes": tx["bytes"], "max_t": self.max_t,
-                "per_module": self.jitter_ns > 0}
+                "per_module": self.jitter_ns > 0, "endfail": ["a"] if self.endfail == "EndFailA" else []}
 
 
 def run_scn(v, wd, prop, scn, mc=True):
@@ -172,6 +172,8 @@ def c14(tier):
         Scn("pe2", menu="MenuPE", start="StartPE", tx="TxZero", stack="Stack2", max_inv=n, max_t=8),
         Scn("pe012", menu="MenuPE", start="StartPE", tx="TxLin", pol="PolQueue", stack="Stack012", max_inv=n, max_t=8),
         Scn("pe2_2stages", menu="MenuPE", start="StartPE", tx="TxZero", stack="Stack2", stages="Stages212", max_inv=n, max_t=8),
+        # three elements: one from the default stack, two appended in ONE call by Module::stack; at_sim_end of a returns Err
+        Scn("pe3_endfail", menu="MenuPE", start="StartPE", tx="TxZero", stack="Stack3", endfail="EndFailA", max_inv=n - 1, max_t=8),
     ]
     for s in fam:
         run_scn(v, wd, "C14", s)
